@@ -7,42 +7,7 @@ BASE_NOTE = ("Trusted: Coq 8.16.1 kernel + vm_compute; the harness generators th
              "coq/Gen on every run; the correspondence harness (sampled); CPython/numpy semantics. Axioms per theorem are listed "
              "in the evidence file (Print Assumptions).")
 
-CHECKS = {
-    "C01": dict(
-        text="Theorems for ALL assemblies (any number of blocks, any vertex identification, numbering and insertion order) and ALL iteration "
-             "orders of the neighbour/coincident containers, proved by induction over the executable model Model/Propagate.v of "
-             "grade_blocks / propagate_gradings / check_consistency: coincidence is complete and symmetric; whenever writing succeeds the "
-             "four parallel wires of each block carry the written count and coincident wires of different blocks carry equal counts; two "
-             "chopped directions of one family with different counts are never written and (every family chopped) give exactly the "
-             "inconsistent-gradings error. The model is tied to the code on every run by an in-Coq (vm_compute) correspondence on random "
-             "lattice assemblies with random renumbering, insertion order, chops and injected iteration schedules (outcome kind, per-block "
-             "counts parsed from the written file, per-wire counts).",
-        design="5/C01, Appendix A, G",
-        technique="Coq: induction over the propagation model for all assemblies and schedules; in-Coq differential correspondence",
-        note=BASE_NOTE + " C01 theorems are closed under the global context (no axioms). Chop.calculate is abstracted to the count it returns "
-             "(C03 covers it); hand model validated on sampled inputs only."),
-    "C02": dict(
-        text="Theorems for ALL assemblies and ALL valid iteration orders (schedule oracles) over Model/Propagate.v: the propagation loop "
-             "never exhausts its fuel (termination, lexicographic measure); the outcome is the undefined-gradings error exactly when some "
-             "family of block directions holds no chop; if every family holds a chop writing succeeds unless two chops conflict and every "
-             "direction then carries its family's count; the complete outcome (kind, block counts, wire counts) is independent of the "
-             "iteration order; the insertion order the repaired code uses is a valid oracle. AXIS_PAIRS is tabulated from the working tree "
-             "on every run and proved to be the 12 positively directed edges of the reference hexahedron Base/Hex.v. Correspondence as C01 "
-             "plus a call-count watchdog (livelock detection) and adversarial schedules.",
-        design="5/C02, Appendix A, G",
-        technique="Coq: termination measure + invariants by induction, oracle-independence theorem; finite table check by vm_compute; in-Coq correspondence",
-        note=BASE_NOTE + " No axioms. Run-to-run determinism of CPython itself is outside the model (the code now iterates insertion-ordered "
-             "containers; the theorem covers every order for counts)."),
-    "C10": dict(
-        text="Finite theorems (whole domain: 3 quads x shifts -9..9 x 4 nearest corners; 6 sides x 4 flag combinations; 64 corner pairs; "
-             "8 corners; 12 edge slots) proved by vm_compute over tables regenerated from the working tree against the independent "
-             "reference hexahedron Base/Hex.v, lifted to forall with forallb_forall; normal flip/shift invariance by ring over R; "
-             "frame theorem for arbitrary call sequences by induction over the spec-level state machine Model/OpAddr.v, which is tied to "
-             "the code by an in-Coq (vm_compute) correspondence on random call sequences.",
-        design="5/C10",
-        technique="Coq: finite tabulation + vm_compute lifted to forall; induction over call sequences; ring",
-        note=BASE_NOTE + " Real-number axioms only under C10_invert_normal."),
-}
+CHECKS = json.load(open(os.path.join(VERIF, "harness", "checks.json")))  # registry: one entry per claimed property
 
 NOT_YET = "not built yet (work in progress; see DESIGN.md section 8)"
 
